@@ -1,10 +1,11 @@
 """C03 - no API call sequence corrupts memory, invokes undefined behaviour or leaks.
 
-1. Coq: coq/Mem/*.v (ledger, checked arrays, pointer-level models of four pieces of allocation /
+1. Coq: coq/Mem/*.v (ledger, checked arrays, pointer-level models of five pieces of allocation /
    indexing logic) and coq/Properties_C03.v are rebuilt; every theorem is an obligation.
 2. Tie: the same op scripts run on the extracted models (ocaml/drv_mem) and on the C harness
-   (harness/mem_harness.c white-box ops); outcome class and live-block counts are compared after
-   each op; the refutation witnesses of the development are replayed on the C side.
+   (harness/mem_wb.c white-box ops); outcome class and live-block counts are compared after
+   each op, for the two hash tables (coq/Mem/HashTab.v) also the chains bucket for bucket; the
+   refutation witnesses of the development are replayed on the C side.
 3. Support / search (never counted as proof): API histories over the whole public API
    (vnaproperty, vnadata, vnacal, vnacal_new) run under ASan+UBSan+LSan with the allocation
    interposer: corpus/C03 first, directed scripts, generated histories (grammar + malformed
@@ -57,6 +58,32 @@ DIRECTED = {
     "save_load_props": ["ccreate 0 1", "cpset 0 -1 g.x=1", "cpset 0 -1 g.l[+]=2", "nalloc 0 0 3 2 2 2", "nsetfv 0 0"] +
                        ["nsr 0 2 2 0 0 %d %d %s 0" % (s, p, g) for p in (1, 2) for s, g in ((2, "-1"), (1, "1"), (0, "0"))] +
                        ["nthru 0 2 2 0 0 1 2", "nsolve 0", "caddcal 0 cal0 0", "cpset 0 0 k=v", "csave 0 0", "cload 1 0 1", "cgets 1 0", "cpget 1 0 k", "cpget 1 -1 g.x", "cfree 1", "cfree 0"],
+    # D43: vector(4 frequencies) <- unknown <- correlated made with sigma_frequency_vector NULL and 4 sigmas (`ccorr .. 4 1`: the
+    # frequencies are borrowed from the vector at the END of the chain of `other` references); delete the correlated parameter,
+    # evaluate the vector, make a second correlated parameter the same way, delete everything (twice), free
+    "D43_corr_borrowed_f_chain": ["ccreate 0 1", "cvector 0 4 0", "cunknown 0 3", "ccorr 0 4 4 1", "cpdel 0 5", "cpval 0 3 1.2e9", "ccorr 0 4 4 1",
+                                  "cpdel 0 5", "cpdel 0 4", "cpdel 0 3", "cpdel 0 3", "cpdel 0 5", "cfree 0"],
+    # the same with a longer chain (correlated -> correlated -> unknown -> vector), deleting from the far end first
+    "D43_corr_borrowed_f_chain3": ["ccreate 0 1", "cvector 0 2 0", "cunknown 0 3", "ccorr 0 4 2 1", "ccorr 0 5 2 1", "cpdel 0 6", "cpval 0 3 1e9", "cpdel 0 5",
+                                   "cpval 0 3 1e9", "ccorr 0 4 2 1", "cpdel 0 4", "cpdel 0 3", "cpval 0 5 1e9", "cfree 0"],
+    # an unknown parameter (scalar initial guess) solved three times by the same vnacal_new_t with the same 3 frequencies
+    # (every nsolve returns 0); the values stored by the earlier solves must be released: final live count 0
+    "resolve_same_new": ["ccreate 0 1", "cscalar 0 0.45 0.25", "cunknown 0 3", "nalloc 0 0 8 1 1 3", "nsetfv 0 0",
+                         "nsr 0 1 1 0 0 2 1 -1 0", "nsr 0 1 1 0 0 1 1 1 0", "nsr 0 1 1 0 0 0 1 0 0", "nsr 0 1 1 0 0 4 1 0.5 0.3",
+                         "nsolve 0", "cpval 0 4 2e9", "nptol 0 1e-9 0", "nsolve 0", "cpval 0 4 2e9", "caddcal 0 cal0 0", "nsolve 0", "nfree 0",
+                         "cpdel 0 4", "cpdel 0 3", "cdelcal 0 0", "cfree 0"],
+    # the same unknown parameter is a standard of two vnacal_new_t (E12 and T8) of 2 frequencies each; both solved, the first
+    # solved again; the second is solved once more after the user deleted the parameters
+    "unknown_two_news": ["ccreate 0 1", "cscalar 0 0.45 0.25", "cunknown 0 3", "nalloc 0 0 8 1 1 2", "nsetfv 0 0", "nalloc 1 0 0 1 1 2", "nsetfv 1 0"] +
+                        ["nsr %d 1 1 0 0 %d 1 %s 0" % (n, s, g) for n in (0, 1) for s, g in ((2, "-1"), (1, "1"), (0, "0"))] +
+                        ["nsr 0 1 1 0 0 4 1 0.5 0.3", "nsr 1 1 1 0 0 4 1 0.5 0.3", "nsolve 0", "nsolve 1", "cpval 0 4 1.5e9", "nsolve 0",
+                         "caddcal 0 cal0 0", "caddcal 0 cal1 1", "nfree 0", "cpdel 0 4", "cpdel 0 3", "nsolve 1", "nfree 1", "cfree 0"],
+    # both shapes together: vector <- unknown <- correlated (borrowed frequencies), unknown and correlated are standards of one
+    # calibration with measurement errors, solved three times; the correlated parameter is deleted between the solves
+    "chain_solved_twice": ["ccreate 0 1", "cvector 0 3 0", "cunknown 0 3", "ccorr 0 4 3 1", "nalloc 0 0 8 1 1 3", "nsetfv 0 0",
+                           "nsr 0 1 1 0 0 2 1 -1 0", "nsr 0 1 1 0 0 1 1 1 0", "nsr 0 1 1 0 0 0 1 0 0", "nsr 0 1 1 0 0 4 1 0.1 -0.2", "nsr 0 1 1 0 0 5 1 0.1 -0.2",
+                           "nmerr 0 1 1", "nsolve 0", "cpval 0 5 2e9", "nsolve 0", "cpval 0 4 2e9", "cpdel 0 5", "cpval 0 3 2e9", "nsolve 0",
+                           "caddcal 0 cal0 0", "nfree 0", "cpdel 0 4", "cpdel 0 3", "cfree 0"],
 }
 
 
@@ -153,7 +180,7 @@ def run(ctx):
     ctx.trusted_base = [
         "Coq 8.16.1 kernel (coqc); vm_compute for the refutation witnesses and examples; no native_compute",
         "axioms: none (Print Assumptions: Closed under the global context for every theorem of Properties_C03.v)",
-        "hand-written pointer-level models coq/Mem/{PropList,DataAlloc,ParamSlots,AddArrays}.v tied to the C code by running the same "
+        "hand-written pointer-level models coq/Mem/{PropList,DataAlloc,ParamSlots,AddArrays,HashTab}.v tied to the C code by running the same "
         "op scripts on the extracted models and on the white-box ops of harness/mem_harness.c",
         "everything not modelled at pointer level (the rest of the public API) is covered by sanitizer runs only (support): "
         "gcc ASan/UBSan/LSan, harness/allocwrap.c live-block accounting",
